@@ -1,5 +1,5 @@
 From Coq Require Import List NArith Bool.
-From V.gen Require Consts.
+From V.gen Require Consts C04Tables.
 From V.C04 Require Import Model Proofs Codec CodecProofs Carrier CarrierProofs Yamux YamuxProofs WebRtc WebRtcProofs.
 Import ListNotations.
 Open Scope N_scope.
@@ -172,6 +172,9 @@ Check (C04_carrier_refines_script :
   forall T, (ab = true -> T = []) ->
   run_ops bp c (mkSys (g_ws g) (g_sent g) (L ++ T) (g_shut g)) (firstn (length rs) (gops ops)) =
   (rs, mkSys (g_ws g') (g_sent g') T (g_shut g'))).
+Check (C04_carrier_poll_total :
+  forall (S : Type) (K : carrier S) (s : S) (w : wstate) (sent : list N),
+  gflush K (flush_fuel w) s w sent <> None).
 Check (C04_carrier_in_order :
   forall (S E : Type) (K : carrier S) (env : S -> E -> S) (fuel : nat) (bp : N) (c : codec)
          (ops : list (gop E)) (s0 : S) rs g' L ab,
